@@ -37,7 +37,15 @@ func decodeArgs(args string, stdin []byte) (out []DecodedIP, ok bool, err error)
 			out, ok, err = nil, true, fmt.Errorf("plugin crashed: panic in cni/ipam.Allocate: %v", r)
 		}
 	}()
-	vlans, results, err := ipam.Allocate("", &skel.CmdArgs{Args: args, StdinData: stdin})
+	// like galaxy's plugins, the decoder is given the ipam type of the network configuration (the fallback when the
+	// arguments carry no ipinfos)
+	var nc struct {
+		IPAM struct {
+			Type string `json:"type"`
+		} `json:"ipam"`
+	}
+	_ = json.Unmarshal(stdin, &nc)
+	vlans, results, err := ipam.Allocate(nc.IPAM.Type, &skel.CmdArgs{Args: args, StdinData: stdin})
 	if err != nil {
 		return nil, true, err
 	}
@@ -149,6 +157,12 @@ func (w *World) handleCNI(t *core.Task, r *core.Req) core.Resp {
 		if c != nil {
 			c.Invs = append(c.Invs, inv)
 		}
+		if rq != nil {
+			rq.invoked++
+			if inv.Failed {
+				rq.pluginFailed = true
+			}
+		}
 		w.S.Stat("plugin." + strings.ToLower(inv.Cmd))
 		if w.S.TraceOn {
 			w.S.Logf("plugin %s %s if=%s fail=%v stdin=%s", inv.Cmd, path.Base(inv.Plugin), inv.IfName, inv.Failed, inv.Stdin)
@@ -187,7 +201,13 @@ func (w *World) handleCNI(t *core.Task, r *core.Req) core.Resp {
 			ip = fmt.Sprintf("172.16.%d.%d", 10+c.Pod.Idx, 2+c.Seq*8+ni)
 			gw = fmt.Sprintf("172.16.%d.1", 10+c.Pod.Idx)
 		}
-		if dec, ok, err := decodeArgs(inv.Args, inv.Stdin); ok {
+		dec, ok, err := decodeArgs(inv.Args, inv.Stdin)
+		ci := C13Invocation{Plugin: path.Base(inv.Plugin), IfName: inv.IfName, HadIPInfos: ok, Decoded: dec}
+		if err != nil {
+			ci.Err = err.Error()
+		}
+		w.c13Invs = append(w.c13Invs, ci)
+		if ok {
 			if err != nil {
 				if strings.Contains(err.Error(), "plugin crashed") {
 					w.S.Stat("probe.plugin-decoder-panic")
